@@ -146,11 +146,28 @@ func c03StaticLoopBound(w *core.World, id string) []core.Result {
 	if len(appends) == 0 {
 		return []core.Result{core.Bad(id, "PROV", construct, w.Pos(fn.Pos()), "vacuous: append of a static NodeClaim not found")}
 	}
-	g := G(`+ < \(\*state\.NodePoolState\)\.ReserveNodeCount\(`)
+	// the counting loop that contains the append is bounded by the grant: its back-edge test is `(i+1) < ReserveNodeCount(...)`
+	loopTest := regexp.MustCompile(`^\(phi\(.*\) \+ 1\) < (.*)$`)
+	grant := regexp.MustCompile(`^\(\*state\.NodePoolState\)\.ReserveNodeCount\(`)
 	for _, a := range appends {
-		if !w.GuardedBy(a, g) {
-			return []core.Result{core.Bad(id, "PROV", construct, w.InstrPos(a),
-				"the loop that builds static NodeClaims is not bounded by the count granted by ReserveNodeCount", w.DominatingLits(a)...)}
+		found := false
+		for _, b := range fn.Blocks {
+			t, _, ok := w.BlockLits(b)
+			if !ok || !t.Pol {
+				continue
+			}
+			m := loopTest.FindStringSubmatch(t.Expr)
+			if m == nil || b.Succs[0] != a.Block() {
+				continue
+			}
+			found = true
+			if !grant.MatchString(m[1]) {
+				return []core.Result{core.Bad(id, "PROV", construct, w.InstrPos(a),
+					"the loop that builds static NodeClaims is bounded by `"+m[1]+"`, not by the count granted by ReserveNodeCount")}
+			}
+		}
+		if !found {
+			return []core.Result{core.Bad(id, "PROV", construct, w.InstrPos(a), "the static NodeClaims are not built in a counting loop bounded by the ReserveNodeCount grant (idiom not recognised)")}
 		}
 	}
 	// and CreateNodeClaims receives that slice
